@@ -171,6 +171,20 @@ func SortedKeys[V any](m map[string]V) []string {
 	return ks
 }
 
+// Running records the input the harness is about to hand to the code under test.  If the process dies there (a panic
+// in a goroutine the harness cannot recover from, a fatal runtime error) the driver finds the input that killed it.
+func Running(kind string, in any) {
+	dir := os.Getenv("VERIF_OUT")
+	if dir == "" {
+		return
+	}
+	b, err := json.Marshal(map[string]any{"kind": kind, "input": in})
+	if err != nil {
+		return
+	}
+	_ = os.WriteFile(filepath.Join(dir, "running.json"), b, 0o644)
+}
+
 // ReplayInput loads the JSON the driver passes with --replay (VERIF_REPLAY).
 func ReplayInput(v any) bool {
 	p := os.Getenv("VERIF_REPLAY")
